@@ -27,7 +27,9 @@
 //!    signer's registered keys, `find_authorized_keys` /
 //!    `construct_update_signer` follow their documented contract, payload size,
 //!    serialisation layout and block-item hash).
-//!  * Panics of a verifier are reported as inconclusive, not as violations.
+//!  * A verifier panic where the predicate says *accept* is a false reject
+//!    (violation); where it says reject it is counted
+//!    (`note.verifier_panic.on_expected_reject`), no totality is demanded.
 use crate::common::*;
 use concordium_base::{
     base::{Energy, Nonce, UpdateKeyPair, UpdateKeysIndex, UpdateKeysThreshold, UpdatePublicKey, UpdateSequenceNumber},
@@ -473,11 +475,13 @@ impl Judge<'_> {
                     let sig = format!("c06:{}:{}:{:016x}", entry, if lit { "false-reject" } else { "false-accept" }, vmon_core::fnv(case.to_string().as_bytes()));
                     self.sh.violate(self.idx, if lit { "false-reject" } else { "false-accept" }, sig, format!("{} returned {} where the threshold predicate says {} (scenario {}, family {})", entry, b, lit, scen, family), case);
                 }
-                Err(p) => {
-                    if self.sh.inconclusive.len() < 5 {
-                        self.sh.inconclusive.push(format!("{} panicked in scenario {}: {}", entry, scen, p));
-                    }
+                Err(pm) if lit => {
+                    // the predicate promises acceptance; a panic is not an acceptance
+                    let case = json!({"entry": entry, "family": family, "scenario": scen, "access_structure": p.to_json(), "signed_data": hex(data), "signatures": sigs_json(sigs), "predicate": lit, "library": format!("panic: {}", pm), "context": extra});
+                    let sig = format!("c06:{}:false-reject-by-panic:{:016x}", entry, vmon_core::fnv(case.to_string().as_bytes()));
+                    self.sh.violate(self.idx, "false-reject", sig, format!("{} panicked where the threshold predicate says accept (scenario {}, family {}): {}", entry, scen, family, pm), case);
                 }
+                Err(_) => self.sh.hit("note.verifier_panic.on_expected_reject"),
             }
         }
     }
@@ -896,11 +900,7 @@ fn perturbed(j: &mut Judge, what: &str, p: &PubAcct, data: &[u8], sigs: &SigMap,
             let case = json!({"perturbation": what, "access_structure": p.to_json(), "signed_data": hex(data), "signatures": sigs_json(sigs), "context": extra});
             j.mismatch("perturbation-accepted", what, format!("{}: verification still succeeds after a single-bit change", what), case);
         }
-        Err(m) => {
-            if j.sh.inconclusive.len() < 5 {
-                j.sh.inconclusive.push(format!("{}: verifier panicked: {}", what, m));
-            }
-        }
+        Err(_) => j.sh.hit("note.verifier_panic.on_expected_reject"),
     }
 }
 
@@ -1102,11 +1102,11 @@ fn judge_v1(j: &mut Judge, scen: &str, ps: &PubAcct, pp: &PubAcct, digest: &[u8]
                 let case = json!({"entry": entry, "scenario": scen, "sender_access_structure": ps.to_json(), "sponsor_access_structure": pp.to_json(), "signed_data": hex(digest), "sender_signatures": sigs_json(s), "sponsor_signatures": p.map(sigs_json), "predicate": exp, "library": b, "context": ctx});
                 j.mismatch(if exp { "false-reject" } else { "false-accept" }, entry, format!("{} returned {} where the threshold predicate (sender and sponsor) says {} (scenario {})", entry, b, exp, scen), case);
             }
-            Err(m) => {
-                if j.sh.inconclusive.len() < 5 {
-                    j.sh.inconclusive.push(format!("{} panicked in scenario {}: {}", entry, scen, m));
-                }
+            Err(m) if exp => {
+                let case = json!({"entry": entry, "scenario": scen, "sender_access_structure": ps.to_json(), "sponsor_access_structure": pp.to_json(), "signed_data": hex(digest), "sender_signatures": sigs_json(s), "sponsor_signatures": p.map(sigs_json), "predicate": exp, "library": format!("panic: {}", m), "context": ctx});
+                j.mismatch("false-reject", entry, format!("{} panicked where the threshold predicate (sender and sponsor) says accept (scenario {}): {}", entry, scen, m), case);
             }
+            Err(_) => j.sh.hit("note.verifier_panic.on_expected_reject"),
         }
     }
 }
